@@ -64,6 +64,7 @@ class Suite:
         self.n_values = n_values
         self.want_model = want_model
         self.cases = []
+        self.wire_names = {}        # (prog, part, kind) -> names the part's messages serialise under
         self.model_err = None
 
     # ------------------------------------------------------------------ helpers
@@ -167,6 +168,8 @@ class Suite:
                 ml = model_by_op[oi]
                 if ml != [jsonx.show(doc)]:
                     run.disagree("encoded JSON", case_desc, ml, jsonx.show(doc))
+            if m.kind in KIND_COQ and isinstance(doc, JObj) and len(doc) == 1:
+                self.wire_names.setdefault((pi, part, m.kind), set()).add(doc[0][0])
             self.cases.append(Case(prog=pi, part=part, iface_idx=pidx, method=m, kind=m.kind, values=vals,
                                    doc_text=o["json"], doc=doc, wrapper_text=o.get("wrapper_json")))
         return len(ops)
@@ -189,6 +192,9 @@ class Suite:
         out.append(("unknown_name", JObj([(name + "_zz", body)])))
         out.append(("unknown_name2", JObj([("zz" + name, body)])))
         out.append(("zero_keys", JObj([])))
+        # the hidden generic-carrier variant must not be a message
+        out.append(("phantom_name", JObj([("__phantom", None)])))
+        out.append(("phantom_name2", JObj([("_phantom", [])])))
         out.append(("two_keys", JObj([(name, body), ("other_msg", JObj([]))])))
         out.append(("not_object_str", name))
         out.append(("not_object_arr", [doc]))
@@ -223,6 +229,8 @@ class Suite:
                 docs = [("well_formed", c.doc)]
                 if c03:
                     docs += self.malformed(c, p)
+                else:
+                    docs += [x for x in self.malformed(c, p) if x[0] in ("phantom_name", "phantom_name2", "unknown_name")]
                 for label, d in docs:
                     text = jsonx.to_text(d)
                     safe = jsonx.coq_safe(d)
@@ -321,6 +329,18 @@ class Suite:
         for o, meta in zip(pobs, pmetas):
             if "ok" in o:
                 accepting.append((meta[4][0], o["ok"]))
+        # C01: a part accepts one name per annotated method of its kind and no other
+        if isinstance(d, JObj) and len(d) == 1 and not jsonx.has_dup_keys(d):
+            for pname, _ in accepting:
+                pidx = [x[0] for x in self.parts(p)].index(pname)
+                iface = self.parts(p)[pidx][2]
+                ms = [m for m in self.methods_of(p, iface) if m.kind == c.kind]
+                if any(a.sv and a.sv[0] == "attr" and ("alias" in a.sv[1] or "rename" in a.sv[1]) for m in ms for a in m.extra_attrs):
+                    continue
+                names = self.wire_names.get((c.prog, pname, c.kind), set())
+                if len(names) == len(ms) and d[0][0] not in names:
+                    run.oracle_fail("part %s accepts the message name `%s`, which is the name of none of its %s methods (%s)" % (
+                        pname, d[0][0], c.kind, sorted(names)), desc)
         dup = jsonx.has_dup_keys(d)
         cls = "document repeats a key" if dup else ("array in place of message body" if label == "array_body" else None)
         if wobs.get("panicked"):
